@@ -45,20 +45,29 @@ class _Injected(Exception):
 
 
 class _Chan:
-    """worker side of the turn protocol"""
+    """worker side of the turn protocol.  The scheduler grants `k` consecutive operations at once (a run of events of the
+    same worker, during which nobody else moves); the reports of a run are sent back together."""
 
     def __init__(self, rfd, wfd):
         self.rfd, self.wfd = rfd, wfd
+        self.credit = 0
+        self.buf = []
 
     def turn(self):
-        _send(self.wfd, ('ready', os.getpid()))
-        cmd = _recv(self.rfd, timeout=60.)
-        if cmd == 'raise':
-            raise _Injected('injected fault')
-        assert cmd == 'go'
+        if self.credit == 0:
+            _send(self.wfd, ('ready', os.getpid(), self.buf)); self.buf = []
+            cmd = _recv(self.rfd, timeout=120.)
+            if cmd == 'raise':
+                raise _Injected('injected fault')
+            assert cmd[0] == 'go'
+            self.credit = cmd[1]
+        self.credit -= 1
 
     def report(self, op):
-        _send(self.wfd, ('did', op))
+        self.buf.append(op)
+
+    def finish(self, what):
+        _send(self.wfd, (what, os.getpid(), self.buf)); self.buf = []
 
 
 CHAN = [None]
@@ -129,15 +138,14 @@ def _session(N, n, to_w, from_w, res_w):
             width = []
             with parallel.fork(N) as procid:
                 CHAN[0] = _Chan(to_w[procid][0], from_w[procid][1])
-                _send(from_w[procid][1], ('hello', os.getpid()))
                 try:
                     for i in rng:
                         CHAN[0].turn()
                         CHAN[0].report('next:%d' % i)
                 except BaseException:
-                    _send(from_w[procid][1], ('failed', os.getpid()))
+                    CHAN[0].finish('failed')
                     raise
-                _send(from_w[procid][1], ('done', os.getpid()))
+                CHAN[0].finish('done')
         _send(res_w, ('returns',))
     except BaseException as e:
         try:
@@ -165,73 +173,91 @@ def run_schedule(N, n, events, drain=400):
     for p in to_w: os.close(p[0])
     for p in from_w: os.close(p[1])
     pids = {}
-    state = {}          # w -> 'ready' | 'done' | 'failed' | 'dead'
+    state = {}          # w -> 'ready' | 'pending' | 'done' | 'failed' | 'dead'
+    slots = {}          # w -> trace positions of the run that is in flight
     trace, claims, executed = [], [], []
 
-    def pump(w):
-        """read messages of worker w until it is at a sync point or finished"""
-        while True:
-            try:
-                msg = _recv(from_w[w][0])
-            except EOFError:
-                state[w] = 'dead'; return
-            if msg[0] == 'hello':
-                pids[w] = msg[1]
-            elif msg[0] == 'ready':
-                state[w] = 'ready'; return
-            elif msg[0] in ('done', 'failed'):
-                state[w] = msg[0]; return
+    def settle(w):
+        """read the message that ends the run in flight of worker w (or its first 'ready')"""
+        if state.get(w, 'pending') != 'pending':
+            return
+        try:
+            msg = _recv(from_w[w][0], timeout=60.)
+        except EOFError:
+            state[w] = 'dead'; return
+        what, pid, reports = msg
+        pids[w] = pid
+        pos = slots.pop(w, [])
+        assert len(reports) <= len(pos), (reports, pos)
+        for p_, op in zip(pos, reports):
+            trace[p_] = op
+        for p_ in pos[len(reports):]:
+            trace[p_] = 'noop'          # the worker left its loop before using up the run
+        state[w] = what
+
+    def flush_claims():
+        del claims[:]
+        for ev, op in zip(executed, trace):
+            if op is not None and op.startswith('set:'):
+                claims.append((int(ev[1:]), int(op[4:]) - 1))
 
     try:
-        for w in range(N):
-            pump(w)
+        def do_run(w, k):
+            """k consecutive step events of worker w"""
+            for _ in range(k):
+                executed.append('s%d' % w)
+            for w_ in range(N): settle(w_)      # at most one run in flight: operations of different workers never overlap
+            if w >= N or state.get(w) != 'ready':
+                trace.extend(['noop'] * k); return
+            slots[w] = list(range(len(trace), len(trace) + k))
+            trace.extend([None] * k)
+            _send(to_w[w][1], ('go', k))
+            state[w] = 'pending'
 
-        def do(ev):
+        def do_fault(ev):
             kind, w = ev[0], int(ev[1:])
             executed.append(ev)
+            for w_ in range(N): settle(w_)
             if w >= N or state.get(w) != 'ready':
-                trace.append('noop'); return
-            if kind == 's':
-                _send(to_w[w][1], 'go')
-                try:
-                    msg = _recv(from_w[w][0])
-                except EOFError:
-                    state[w] = 'dead'; trace.append('died'); return
-                assert msg[0] == 'did', msg
-                trace.append(msg[1])
-                if msg[1].startswith('set:'):
-                    claims.append((w, int(msg[1][4:]) - 1))
-                pump(w)
-            elif kind == 'k':
+                trace.append('noop'); return False
+            if kind == 'k':
                 os.kill(pids[w], signal.SIGKILL)
                 state[w] = 'dead'; trace.append('kill')
-            elif kind == 'x':
+            else:
                 _send(to_w[w][1], 'raise')
                 trace.append('raise')
-                pump(w)
-                if state[w] == 'ready':   # must not happen: the exception was swallowed
-                    state[w] = 'ready'
-            else:
-                raise ValueError(ev)
+                state[w] = 'pending'; slots[w] = []
+                settle(w)
+            return True
 
         stop = False
-        for ev in events:
-            do(ev)
-            if ev[0] in 'kx' and int(ev[1:]) == 0 and trace[-1] != 'noop':
-                stop = True; break    # parent gone: `_fork` kills the children / nobody waits; no further comparison
+        k = 0
+        while k < len(events):
+            ev = events[k]
+            if ev[0] == 's':
+                m = 1
+                while k + m < len(events) and events[k + m] == ev: m += 1
+                do_run(int(ev[1:]), m); k += m
+            else:
+                hit = do_fault(ev); k += 1
+                if int(ev[1:]) == 0 and hit:
+                    stop = True; break    # parent gone: `_fork` kills the children / nobody waits; no further comparison
         if not stop:
             idle_rounds = 0
-            k = 0
-            while k < drain and idle_rounds < 2:
-                progressed = False
+            steps = 0
+            while steps < drain and idle_rounds < 2:
+                before = len(trace)
                 for w in range(N):
+                    settle(w)
                     if state.get(w) == 'ready':
-                        do('s%d' % w); k += 1
-                        if trace[-1] not in ('blocked', 'noop'):
-                            progressed = True
+                        do_run(w, 3); steps += 3
+                for w in range(N): settle(w)
                 if not any(state.get(w) == 'ready' for w in range(N)):
                     break
+                progressed = any(t not in ('blocked', 'noop') for t in trace[before:])
                 idle_rounds = 0 if progressed else idle_rounds + 1
+        for w in range(N): settle(w)
+        flush_claims()
         # outcome of the `with parallel.fork` statement in the session process
         blocked = any(state.get(w) == 'ready' for w in range(N)) or state.get(0) == 'dead'
         outcome = 'blocked'
